@@ -21,7 +21,11 @@ ASSUME = {
     ],
     "C04": [
         "std::fmod is exact; conversions float/double <-> integer are the IEEE-754 ones",
-        "Integer % word and Integer -> word casts are the gmp++ operations verified in C01/C02",
+        "Integer % word, Integer::mod and Integer -> word casts are the gmp++ operations verified in C01/C02",
+        "only Modular<machine word>::init from machine-integer sources has a Lean model and theorems; every other init overload, convert and the constants "
+        "are tied to the exact specification by correspondence",
+        "outside the property: even modulus for Montgomery<int32_t>; float sources beyond 2^32 for Montgomery<int32_t>'s template init (header: the source must fit an Element); "
+        "convert into a type that cannot hold the lift; GFqDom with exponent > 1",
     ],
 }
 
@@ -40,6 +44,7 @@ def run(prop, tier, seed, replay=None):
     L = flow.lean_stage(V, ["GivaroModel.Props." + prop], "GivaroModel/Props/%s.lean" % prop)
     t0 = time.time()
     cfgs = ("S", "R")
+    common.shadow_inc()          # once, before the two build threads race to re-point the shadow include tree
     bins = flow.build_harnesses("h_modring", configs=cfgs)
     t_build = time.time() - t0
     lines = None
